@@ -321,7 +321,11 @@ class Gen:
         for i in range(n):
             c = r.random()
             onm = ["onmatch"] if (use_onmatch and r.random() < 0.2) else []
-            if "assign" in f and c < 0.22:
+            if "nested-onmatch" in f and use_onmatch and i == 0 and r.random() < 0.25:
+                name = self.fresh("n")
+                comps.append(("assign", name, None, [], ("fn", "sum", [r.choice([("hdr", "a"), ("hdr", "b")])], [self.fresh("sm"), "onmatch"])))
+                use_onmatch = False  # keep it the only onmatch-dependent component of the program
+            elif "assign" in f and c < 0.22:
                 node, name, kind, tr = self.assignment(onm)
                 comps.append(node)
                 implicit_onmatch = node[4][0] == "fn" and node[4][1] == "count"
